@@ -16,6 +16,7 @@ import (
 	"strconv"
 	"strings"
 	"sync"
+	"sync/atomic"
 
 	"storj.io/drpc"
 	"storj.io/drpc/drpcconn"
@@ -86,6 +87,7 @@ type World struct {
 	mparks    map[string]chan chan struct{} // parked Marshal of invp operations
 	parkAt    map[string]bool               // operations that park after newStream's hand-off
 	mgrArm    bool                          // mgrpark: see the point hook
+	msArm     bool                          // mspark: see the point hook
 	mgrSets   int
 	mgrOp     string
 	hid       int
@@ -190,10 +192,17 @@ func whoReports() string {
 	return role + string(b)
 }
 
+var offerHook atomic.Pointer[func()]
+
 func init() {
 	drpcdebug.SetEventHook(func(obj interface{}, name string, id uint64) {
 		key := fmt.Sprintf("%p", obj)
 		who := whoReports()
+		if name == "stream.new.offer" {
+			if f := offerHook.Swap(nil); f != nil {
+				(*f)() // ocancel: something happens exactly between the publication of a new stream and its hand-off
+			}
+		}
 		evMu.Lock()
 		if evTraces == nil {
 			evTraces, evWho = map[string][]string{}, map[string][]string{}
@@ -262,6 +271,17 @@ func NewWorld(cfg Config) *World {
 				return true
 			}
 			return false
+		}
+		if point == "manager.manageStream.enter" {
+			// mspark: the next goroutine entering manageStream parks in front of its select
+			w.mu.Lock()
+			defer w.mu.Unlock()
+			if !w.msArm {
+				return false
+			}
+			w.msArm = false
+			w.mgrOp = op
+			return true
 		}
 		if point != "manager.newStream.handoff" {
 			return false
@@ -434,6 +454,16 @@ func (w *World) Do(act string) string {
 		}
 		w.mu.Unlock()
 		w.D.ReleasePoint(name)
+	case "ocancel": // ocancel!ctx : that context is cancelled when the next stream is about to be handed to manageStreams
+		id := atoi(f[1])
+		w.ctx(id)
+		cancel := w.ctxs[id]
+		fn := func() { cancel() }
+		offerHook.Store(&fn)
+	case "mspark": // the next manageStream parks in front of its select (released by prel!@mgr)
+		w.mu.Lock()
+		w.msArm = true
+		w.mu.Unlock()
 	case "mgrpark": // the client's manageStream goroutine will park between finishing a stream and sending its token
 		w.mu.Lock()
 		w.mgrArm, w.mgrSets = true, 0
